@@ -33,9 +33,20 @@ gen.SEEDS.setdefault("derived", [
                          isFormula=False),
                       _c("cnt", "Any", "len(A.lookupRecords(cat=$k))"),
                       _c("bad", "Any", "1/0"),
-                      _c("r", "Ref:A"), _c("rn", "Any", "$r.n")]]],
+                      _c("r", "Ref:A"), _c("rn", "Any", "$r.n"),
+                      # a formula that performs a side effect and then FAILS when it is
+                      # re-evaluated by a read-only call: at add time ($big = 0) it stores a
+                      # ZeroDivisionError; once $big is 18 the re-evaluation runs out of memory
+                      # after lookupOrAddDerived has added a row (MemoryError is the one
+                      # exception the engine does not wrap into a cell error)
+                      _c("zero", "Int"), _c("big", "Int"),
+                      _c("m", "Any", "r = A_summary_cat.lookupOrAddDerived(cat=($k or '') + '!')\n"
+                                     "pad = [None] * (10 ** ($big or 0))\n"
+                                     "return (r.id + len(pad)) // $zero", isFormula=False)]]],
   [["UpdateRecord", "_grist_Tables_column", 15, {"recalcWhen": 1}]],   # B.d: never recalculated
-  [["BulkAddRecord", "B", [None, None, None], {"k": ["x", "zz", "q"], "r": [1, 2, 0]}]],
+  [["BulkAddRecord", "B", [None, None, None], {"k": ["x", "zz", "q"], "r": [1, 2, 0],
+                                                "zero": [0, 0, 0], "big": [0, 0, 0]}]],
+  [["BulkUpdateRecord", "B", [1, 2], {"big": [18, 18]}]],
 ])
 
 ALL_SEEDS = ("derived", "summary", "lookup", "basic", "refs", "trigger", "prevnext", "twoway")
